@@ -21,7 +21,7 @@ def check_receivers(ctx, sc, r=None):
     # ... and one so far away that its direct sound (and every patch leg) arrives after the end
     S_run = np.asarray(r._energy_exchange_etc).shape[-1]
     far_pt = np.asarray(sc['src'], float) + np.array([(S_run + 2.5) * r.speed_of_sound * r._etc_time_resolution, 0.3, 0.2])
-    recs = np.vstack([recs, far_pt[None, :]])
+    recs = np.vstack([far_pt[None, :], recs]) if ctx.rng.random() < 0.5 else np.vstack([recs, far_pt[None, :]])
     pw_all = r.collect_energy_receiver_patchwise(scenes.coords(recs)).time
     mono = r.collect_energy_receiver_mono(scenes.coords(recs)).time
     ctx.oracle_evals += 2
